@@ -2410,3 +2410,11 @@ func (g *Graph) BoolResultUnder(assumed func(Fact) bool) (canTrue, canFalse bool
 	}
 	return
 }
+
+// BodyOf returns the body (of the declaration or literal) the graph was built for.
+func BodyOf(g *Graph) ast.Node {
+	if g == nil || g.Body == nil {
+		return nil
+	}
+	return g.Body
+}
